@@ -28,7 +28,9 @@ if os.environ.get("EAR_REPO"):
     # not leak into /verif/lean), private evidence/replay directory
     LEAN = os.path.join(REPO, ".verif_lean")
     OUT = os.path.join(REPO, ".verif_out")
-    subprocess.run(["rsync", "-a", "--delete", os.path.join(VERIF, "lean") + "/", LEAN + "/"], check=True)
+    _rs = subprocess.run(["rsync", "-a", "--delete", os.path.join(VERIF, "lean") + "/", LEAN + "/"])
+    if _rs.returncode not in (0, 24):  # 24 = files vanished while copying (someone else is building)
+        raise SystemExit("rsync of the Lean project failed: %d" % _rs.returncode)
 else:
     LEAN = os.path.join(VERIF, "lean")
     OUT = VERIF
@@ -431,6 +433,10 @@ def run_check(spec, tier, seed):
         return 2
     except subprocess.TimeoutExpired as e:
         log("INFRA-FAILURE property=%s: timeout %s" % (spec.pid, e))
+        return 2
+    except Exception:
+        # a bug in the harness itself is never reported as held or as a violation
+        log("INFRA-FAILURE property=%s: unexpected harness exception\n%s" % (spec.pid, traceback.format_exc()[-3000:]))
         return 2
 
 
